@@ -8,7 +8,7 @@ MATCH = r"match_node_with_env"
 OPS_DECIDED_C04 = "frame law on trait Matcher (None => env unchanged; Some => env exactly the reference env) proved for &T, MatchAll, MatchNone, Op, Or, Not, And, All, Any"
 PROPS = {
     "C01": {
-        "units": [("ops", KINDS), ("rule_core", KINDS + "|do_match|with_"), ("rule", KINDS)],
+        "units": [("ops", KINDS), ("rule_core", KINDS + "|do_match|with_"), ("rule", KINDS), ("combined", r"CombinedScan|lemma")],
         "kani": [],
         "decided": ["potential_kinds of every matcher in ops.rs/matcher.rs over-approximates the kinds of nodes it can match (trait-level ensures); All/Any cached kinds sound (type invariant established by new via compute_kinds)"],
         "not_decided": ["run.rs/scan.rs wiring, injected languages, ordering across files"],
@@ -58,6 +58,13 @@ PROPS = {
         "decided": ["debug assertions of the leaf matcher are proof obligations (R5)", "nthChild parsing never overflows"],
         "not_decided": ["serde_yaml / regex / globset internals; stack depth for deeply nested YAML"],
         "assumptions": [],
+    },
+    "C14": {
+        "units": [("combined", r"MaySuppressed")],
+        "kani": [],
+        "decided": ["MaySuppressed::suppressed_id: silenced iff a suppression governs the line and lists the rule id or lists nothing; reports that suppression's node id"],
+        "not_decided": ["where comments sit (tree-sitter prev()/start_pos), comment detection by kind name, the unused-suppression bookkeeping inside CombinedScan::scan (HashMap/HashSet + dfs iterator), CLI records"],
+        "assumptions": ["HashSet<String>::contains(&str) is set membership on the string content"],
     },
     "C20": {
         "units": [],
